@@ -164,7 +164,9 @@ class Case:
             if not idx: raise Unrealisable()
             del links[idx[-1]]
         inp = sigcase.flip(self.agg_root) if b == "otherInput" else self.agg_root
-        cal = ksi.cal_chain_tlv(pub, aggr + 1 if b == "otherAggrTime" else aggr, inp, links)
+        # another aggregation time: the element says so, or the element is left out (the chain's aggregation time is then its publication time)
+        other = (aggr + 1 if self.rng.random() < 0.5 or pub == aggr else None) if b == "otherAggrTime" else aggr
+        cal = ksi.cal_chain_tlv(pub, other, inp, links)
         body = ksi.tlv(0x01, ksi.uint(rid + 1 if b == "otherId" else rid)) + ksi.tlv(0x04, b"") + ksi.tlv(0x12, ksi.uint(self.HEAD + 50)) + cal
         return wire.envelope(0x0321, (0x0300, 0x0302), [(0x02, body)], a)
 
